@@ -50,8 +50,30 @@ def periods(rng):
     return sorted(round(rng.uniform(0.15, 2.0), 4) for _ in range(rng.randint(2, 4)))
 
 
-def freqs(rng):
-    return sorted(round(rng.uniform(0.3, 20.0), 4) for _ in range(rng.randint(3, 6)))
+def freqs(rng, n=None):
+    return sorted(round(rng.uniform(0.3, 20.0), 4) for _ in range(n or rng.randint(3, 6)))
+
+
+_LAST_RANGE = {}     # id(object) -> (limits, n_points) of the last set_smooth_fa_frequecies_by_range performed on it
+
+
+def _a_range(rng, s):
+    """half of the time repeat EXACTLY the range and point count used before on this object (or the constructor default range with
+    the current number of points): a 'nothing changed' shortcut must not fire when the frequencies were replaced in between"""
+    last = _LAST_RANGE.get(id(s))
+    r = rng.random()
+    if last is not None and r < 0.5:
+        args = {'limits': list(last[0]), 'n_points': last[1]}
+    elif r < 0.6:
+        args = {'limits': [0.1, 30], 'n_points': len(s.smooth_fa_freqs)}
+    else:
+        args = {'limits': [round(rng.uniform(0.1, 0.5), 3), round(rng.uniform(5, 20), 3)], 'n_points': rng.randint(4, 8)}
+    _LAST_RANGE[id(s)] = (tuple(args['limits']), args['n_points'])
+    return args
+
+
+def _a_freqs_same_count(rng, s):
+    return {'freqs': freqs(rng, len(s.smooth_fa_freqs) if rng.random() < 0.6 else None)}
 
 
 # ---- argument makers: (rng, sig) -> args dict ---------------------------------------------------------------------
@@ -84,14 +106,16 @@ ARGS = {
     'rebase_displacement': _a_none,
     'set_zero_residual_velocity': _a_none,
     'set_zero_residual_displacement': _a_none,
-    'set_zero_residual_displacement_and_velocity': _a_none,
+    # half of the calls use a time window (same table row, same effects): exercises the in-place edits on slices of self.time
+    'set_zero_residual_displacement_and_velocity': lambda rng, s: ({} if rng.random() < 0.5 else
+                                                                   {'timezone': [round(s.dt * rng.randint(1, max(1, len(s.values) // 4)), 6),
+                                                                                 rng.choice([None, round(s.dt * (len(s.values) // 2), 6)])]}),
     'correct_me': _a_none,
-    'smooth_fa_freqs=': lambda rng, s: {'freqs': freqs(rng)},
-    'smooth_fa_frequencies=': lambda rng, s: {'freqs': freqs(rng)},
-    'set_smooth_fa_frequecies_by_range': lambda rng, s: {'limits': [round(rng.uniform(0.1, 0.5), 3), round(rng.uniform(5, 20), 3)],
-                                                         'n_points': rng.randint(4, 8)},
-    'smooth_freq_range=': lambda rng, s: {'limits': [round(rng.uniform(0.1, 0.5), 3), round(rng.uniform(5, 20), 3)]},
-    'smooth_freq_points=': lambda rng, s: {'points': len(s.smooth_fa_freqs) + rng.randint(1, 3)},
+    'smooth_fa_freqs=': _a_freqs_same_count,
+    'smooth_fa_frequencies=': _a_freqs_same_count,
+    'set_smooth_fa_frequecies_by_range': _a_range,
+    'smooth_freq_range=': lambda rng, s: {'limits': _a_range(rng, s)['limits']},
+    'smooth_freq_points=': lambda rng, s: {'points': len(s.smooth_fa_freqs) + rng.randint(0, 3)},
     'response_times=': lambda rng, s: {'periods': periods(rng)},
     'gen_response_spectrum/given': lambda rng, s: {'periods': periods(rng)},
     'gen_response_spectrum/omitted': _a_none,
@@ -99,7 +123,7 @@ ARGS = {
     'generate_response_spectrum/omitted': _a_none,
     'response_series/given': lambda rng, s: {'periods': periods(rng)},
     'response_series/omitted': _a_none,
-    'gen_smooth_fa_spectrum/given': lambda rng, s: {'freqs': freqs(rng)},
+    'gen_smooth_fa_spectrum/given': _a_freqs_same_count,
     'gen_smooth_fa_spectrum/omitted': _a_none,
     'generate_smooth_fa_spectrum': _a_none,
     'gen_fa_spectrum': _a_none,
@@ -163,7 +187,11 @@ def apply_op(s, name, args):
     elif name == 'set_zero_residual_displacement':
         s.set_zero_residual_displacement()
     elif name == 'set_zero_residual_displacement_and_velocity':
-        s.set_zero_residual_displacement_and_velocity()
+        tz = args.get('timezone')
+        if tz is None:
+            s.set_zero_residual_displacement_and_velocity()
+        else:
+            s.set_zero_residual_displacement_and_velocity(timezone=(tz[0], tz[1]))
     elif name == 'correct_me':
         s.correct_me()
     elif name == 'smooth_fa_freqs=':
@@ -283,3 +311,22 @@ def observe_fresh(s, cls, quants):
 def model_name(name, s):
     """the op's name for the Lean model: value-replacing calls carry the length of the new record"""
     return name + '#%d' % len(s.values) if name in VALUE_MUTATORS else name
+
+
+def expected_settings(name, args, sff, rt):
+    """the smoothing frequencies / response periods a settings operation must leave, computed from its ARGUMENTS and the previous
+    expected settings only (never read back from the object): (new_sff, new_rt), None = unchanged"""
+    if name in ('smooth_fa_freqs=', 'smooth_fa_frequencies=', 'gen_smooth_fa_spectrum/given'):
+        return np.array(args['freqs'], dtype=float), None
+    if name == 'set_smooth_fa_frequecies_by_range':
+        lf = np.log10(np.array(args['limits'], dtype=float))
+        return np.logspace(lf[0], lf[1], args['n_points'], base=10), None
+    if name == 'smooth_freq_range=':
+        lf = np.log10(np.array(args['limits'], dtype=float))
+        return np.logspace(lf[0], lf[1], len(sff), base=10), None
+    if name == 'smooth_freq_points=':
+        lf = np.log10(np.array([sff[0], sff[-1]], dtype=float))
+        return np.logspace(lf[0], lf[1], int(args['points']), base=10), None
+    if name in ('response_times=', 'gen_response_spectrum/given', 'generate_response_spectrum/given', 'response_series/given'):
+        return None, np.array(args['periods'], dtype=float)
+    return None, None
